@@ -66,6 +66,41 @@ func forceOutsideGrid(w *twork, seed uint64) {
 	}
 }
 
+// hasOutsidePolygon: does a polygon table hold a polygon with a vertex clearly left of the
+// grid while the ignore flag is off?
+func hasOutsidePolygon(w *twork) bool {
+	if w.IgnoreOut || len(w.IDs) == 0 {
+		return false
+	}
+	t := loadTMS(w.TMS)
+	g := gridOf(t)
+	deep := w.IDs[0]
+	for _, id := range w.IDs {
+		if id > deep {
+			deep = id
+		}
+	}
+	res := pixelOf(t, g, deep)
+	for _, tb := range w.Source.Tables {
+		if !tb.Spatial || tb.GeomType != gpkgh.TPolygon {
+			continue
+		}
+		for _, row := range tb.Rows {
+			if row.Geom == nil || row.Geom.T != gpkgh.TPolygon {
+				continue
+			}
+			for _, ring := range row.Geom.L {
+				for _, p := range ring {
+					if p[0] < g.minX-2*res {
+						return true
+					}
+				}
+			}
+		}
+	}
+	return false
+}
+
 type twork struct {
 	TMS       string `json:"tms"`
 	IDs       []int  `json:"ids"`
@@ -238,10 +273,19 @@ func genPolygon(r *simrt.RNG, t tms20.TileMatrixSet, g grid, ids []int, outside 
 		// does not recognise a vertex as outside (truncating division, another property's
 		// business) and panics instead of skipping the polygon
 		res := pixelOf(t, g, deep)
+		left := 0
 		for i, p := range rings[0] {
 			if p[0] < g.minX && p[0] > g.minX-3*res {
 				rings[0][i][0] = g.minX - 3*res
 			}
+			if rings[0][i][0] < rings[0][left][0] {
+				left = i
+			}
+		}
+		// a star of three or four points around a centre just inside the edge can lie inside
+		// altogether: push its leftmost vertex out
+		if rings[0][left][0] >= g.minX {
+			rings[0][left][0] = g.minX - 3*res - math.Round(size/2/unit)*unit
 		}
 	}
 	if r.Chance(0.25) && size > 12*unit {
@@ -1133,6 +1177,10 @@ var onFatal func(v *simh.Violation)
 
 func runOne(t *testing.T, w *twork, fp simrt.FaultPlan, mp simrt.MapPolicy, mapSeed, seed uint64, tape []uint32, replay, trace bool, dir string, mode string, binary string) (rr runResult) {
 	rr.probes = simh.Counter{}
+	if w.ExpectFailure && mode == "binary" && !hasOutsidePolygon(w) {
+		// (a shrunk candidate that lost its outside polygon: nothing to expect any more)
+		w.ExpectFailure = false
+	}
 	if w.ExpectFailure && mode == "binary" {
 		p := prepare(w, seed, dir)
 		defer os.RemoveAll(dir)
